@@ -40,6 +40,16 @@ TABLE = {
     "c01_merge_reuse_keeps_old_members.diff": ("contracts.c01b", "_attempt_wire_merge", "left own, right simple"),
     "c08_mark_occupied_row_only.diff": ("contracts.c08", "mark_occupied", None),
     "c14_zero_step_via_variable.diff": ("contracts.c14", "visit_ForStmt", "variable"),
+    "c14_write_keyed_by_scope.diff": ("contracts.c14c", "infer_expr_type", "m.write(v), v: SignalValue"),
+    "c14_write_loop_needs_three.diff": ("contracts.c14c", "infer_expr_type", "m.write(v), v: SignalValue"),
+    "c14_write_loop_inner_cell_refused.diff": ("contracts.c14c", "infer_expr_type", "m.write(v), v: SignalValue"),
+    "c14_write_mismatch_only_warns.diff": ("contracts.c14c", "infer_expr_type", "m.write(v), v: SignalValue"),
+    "c14_write_implicit_prefix_wide.diff": ("contracts.c14c", "infer_expr_type", "m.write(v), v: SignalValue"),
+    "c14_write_non_memory_accepted.diff": ("contracts.c14c", "infer_expr_type", "m.write(v), v: BundleValue"),
+    "c14_write_latch_reset_unchecked.diff": ("contracts.c14c", "infer_expr_type", "m.write(v, set=s, reset=r), v: BundleValue"),
+    "c14_for_iterations_not_recorded.diff": ("contracts.c14", "visit_ForStmt", "literal"),
+    "c14_lowering_written_not_recorded.diff": ("contracts.c05b", "lower_write_expr", None),
+    "c14_lowering_second_write_lowered.diff": ("contracts.c05b", "lower_write_expr", None),
     "c14_define_shadows_in_inner_scope.diff": ("contracts.c14", "define", None),
     "c14_error_not_counted.diff": ("contracts.c14", "error", None),
     "c09_xy_swapped.diff": ("contracts.c09", "_place_user_entity", None),
